@@ -32,7 +32,8 @@ CONNECTION WITH THE USE OR PERFORMANCE OF THIS SOFTWARE.
  * @param num       Extended header type.
  * @param data      Pointer to the data to decode.
  * @param data_len  Size of the data to decode, in bytes.
- * @return          Non-zero for success, or zero if not decoded.
+ * @return          Non-zero for success (including headers that are
+ *                  ignored), or zero for failure (out of memory).
  */
 
 int lha_ext_header_decode(LHAFileHeader *header,
